@@ -413,6 +413,76 @@ def gen_case_rc(r):
                 ops=[dict(op="kicker", t=0), dict(op="kiq", k=0, plan=["fail", "ok"])])
 
 
+# ------------------------------------------------------------------ middlewares that hand the message on
+# The worker-side and send-side middleware stacks were constants (one recorder that returns the object it was given + the retry
+# middleware).  A middleware may hand on any TaskiqMessage with the same content: the same object, a (deep) copy, a freshly
+# built message, an instance of its own subclass, sync / async / a non-coroutine awaitable, before or after the other
+# middlewares.  None of these touches a label, so the labels seen by the later middlewares, by Context, in the stored result
+# and on every re-delivery must still be the labels that were set (value and type).
+PASS_MODES = ["same", "copy", "deep", "update", "rebuild", "sub", "construct", "validate", "notypes"]
+SEND_MODES = [m for m in PASS_MODES if m != "notypes"]      # on the send side the types are still needed by the worker
+STYLES = ["sync", "sync", "async", "async", "future", "awaitable"]
+# values that survive, change under, or break a second decoding / a re-typing of a label
+TRICKY = {
+    "bytes": [b"abcd", b"QUJD", b"QUJDRA==", b"UVVKRA==", b"\xff\x00\xfe", b"=", b"a", b"ab==", b"abc", b"True", b"12", b"1.5",
+              b"\x00", b"////", b"+/+/", b"a\nb", b" "],
+    "str": ["QUJD", "YWJjZA==", "UVVKRA==", "True", "false", "12", "-0", "1.5", "nan", "1e3", "b'ab'", "", "="],
+    "int": [0, 1, -1, 12, 2**64, -10**30],
+    "float": [1.0, -0.0, 12.0, 1e22, float("inf"), float("nan"), .1],
+    "bool": [True, False],
+}
+
+
+def gen_tricky(r, t):
+    if r.random() < .35:
+        while True:
+            v = gen_value(r, allow_other=False)
+            if v["t"] == t:
+                return v
+    return tv(r.choice(TRICKY[t]))
+
+
+def gen_xmw(r):
+    """1-3 middlewares; at least one hands on another object than it was given in three of four stacks"""
+    out = []
+    for _ in range(r.choice([1, 1, 2, 2, 3])):
+        k = r.random()
+        pre = r.choice(PASS_MODES) if k < .8 else None
+        send = r.choice(SEND_MODES) if k >= .8 or r.random() < .3 else None
+        out.append(dict(pos=r.choice(["first", "mid", "mid", "last"]), pre=pre, send=send, style=r.choice(STYLES),
+                        inherit=r.random() < .2))
+    if r.random() < .75 and all(m["pre"] in (None, "same") for m in out):
+        out[r.randrange(len(out))]["pre"] = r.choice(PASS_MODES[1:])
+    return out
+
+
+def gen_case_mw(r, base=None):
+    """a random scenario run with a stack of middlewares that hand the message on in different ways, in which one send
+    carries labels of all five types (set on the declaration, on the kicker, or split over both), its bytes / str / number
+    values drawn from the ones a second decoding or a re-typing would change"""
+    case = base if base is not None else (gen_case_rc(r) if r.random() < .15 else gen_case(r))
+    case["xmw"] = gen_xmw(r)
+    sends = [(i, o) for i, o in enumerate(case["ops"]) if o["op"] in ("kiq", "task_kiq")]
+    i, op = r.choice(sends)
+    t = op["t"] if op["op"] == "task_kiq" else [o for o in case["ops"] if o["op"] == "kicker"][op["k"]]["t"]
+    types = ["bytes", "str", "int", "float", "bool"] if r.random() < .7 else ["bytes"] + r.sample(["str", "int", "float", "bool"], 2)
+    wl = None
+    for ty in types:
+        name = r.choice(["l_" + ty, "l_" + ty, r.choice(USER_KEYS[:6])])
+        v = gen_tricky(r, ty)
+        if op["op"] == "task_kiq" or r.random() < .5:
+            set_label(r, case["tasks"][t]["labels"], name, v)
+        else:
+            if wl is None:
+                wl = dict(op="with_labels", k=op["k"], labels=[])
+                case["ops"].insert(i, wl)
+            set_label(r, wl["labels"], name, v)
+    if r.random() < .5:
+        op["plan"] = gen_plan(r)
+    normalise(case)
+    return case
+
+
 def retype(r, v):
     """the same value written in another of the five types, where the language converts it (else a fresh value)"""
     if v["t"] == "other":
@@ -604,15 +674,21 @@ def oracle(case, obs, fail):
         for j, at in enumerate(chain):
             views = [("middleware(pre_execute)", at["pre"]), ("Context", at["ctx"]), ("middleware(post_execute)", at["post"]),
                      ("stored result", at["res"])]
+            required = ["middleware(pre_execute)", "Context"]
+            if case.get("xmw") is not None:          # a second recorder after all other middlewares
+                views[1:1] = [("later middleware(pre_execute)", at.get("pre2"))]
+                views[-1:-1] = [("later middleware(post_execute)", at.get("post2"))]
+                required.append("later middleware(pre_execute)")
             for name, pairs in views:
                 if pairs is None:
-                    if name in ("middleware(pre_execute)", "Context"):
+                    if name in required:
                         fail("delivery %d: message not seen in %s (undecodable or not executed)" % (j, name),
                              dict(callback_raised=at["callback_raised"]), None, "requeue" if 0 < j <= len(e["plan"]) and e["plan"][j - 1] == "requeue" else "delivery")
                     continue
                 got = as_map(pairs)
-                gotc = canon_map({k: v for k, v in got.items() if k not in others}, drop=() if j == 0 and name != "middleware(post_execute)" else COUNTERS)
-                w = want_full if j == 0 and name != "middleware(post_execute)" else want
+                exact = j == 0 and not name.endswith("(post_execute)")
+                gotc = canon_map({k: v for k, v in got.items() if k not in others}, drop=() if exact else COUNTERS)
+                w = want_full if exact else want
                 if gotc != w:
                     diff = sorted(k for k in set(gotc) | set(w) if gotc.get(k) != w.get(k))
                     fail("labels seen by the worker differ in value or type from the labels set (%s, %s)" % (
@@ -969,6 +1045,8 @@ def explore(ctx, rep, cases, label, shard=60):
                     rep.count("retry-control:deliveries of a send with max_retries / retry_on_error set:%d" % len(s.get("chain", ())))
                     if e["plan"][-1] in ("fail", "requeue"):
                         rep.count("retry-control:chain ended by the labels (budget exhausted / retry disabled)")
+        if c.get("xmw") is not None:
+            count_pass(rep, c, o, exp)
         mwc = c.get("mw", {})
         if mwc.get("count", 100) != 100 or not mwc.get("label", True):
             rep.count("middleware-defaults:count=%s,label=%s" % (mwc.get("count", 100), mwc.get("label", True)))
@@ -995,6 +1073,29 @@ def explore(ctx, rep, cases, label, shard=60):
     return bool(bad or fails)
 
 
+def count_pass(rep, c, o, exp):
+    """evidence distribution of the hand-on middlewares: which hooks really ran, in which way, with which label types"""
+    rep.count("mw-pass:scenarios with a stack of hand-on middlewares")
+    for m in c["xmw"]:
+        rep.count("mw-pass:position in the stack:%s:%s" % (m["pos"], "+".join(h for h in ("pre", "send") if m[h]) ))
+        if m.get("inherit"):
+            rep.count("mw-pass:hooks inherited from a base class")
+    replaced = any(m["pre"] not in (None, "same") for m in c["xmw"])
+    for s in o["sent"]:
+        for ev in s.get("passed", ()):
+            rep.count("mw-pass:ran:pre_send(first send):%s:%s" % (ev[1], ev[2]))
+        for j, at in enumerate(s["chain"]):
+            for ev in at.get("passed", ()):
+                rep.count("mw-pass:ran:%s:%s:%s" % ("pre_execute" if ev[0] == "xpre" else "pre_send(re-send)", ev[1], ev[2]))
+            if replaced and at["ctx"] is not None:
+                rep.count("mw-pass:delivery executed on a replaced message object:%s" % ("first" if j == 0 else "re-delivery"))
+    if len(exp) == len(o["sent"]):
+        for e, s in zip(exp, o["sent"]):
+            if replaced and s["chain"]:
+                for t in sorted({v["t"] for v in e["labels"].values()}):
+                    rep.count("mw-pass:label type carried through a replaced message:" + t)
+
+
 def corpus_cases():
     return [(n, c["case"] if "case" in c and "ops" not in c else c) for n, c in C.load_corpus("C09")]
 
@@ -1010,6 +1111,8 @@ def run(ctx):
     cases = [gen_case(r) for _ in range(ctx.n(420, 6000))]
     rc = ctx.sub_rng("gen-rc")       # own stream: the scenarios above stay what they were
     cases += [gen_case_rc(rc) for _ in range(ctx.n(50, 850))]
+    mwr = ctx.sub_rng("gen-mw")      # own stream again
+    cases += [gen_case_mw(mwr) for _ in range(ctx.n(50, 850))]
     rep.extra["plans_cut_by_normalise"] = sum(normalise(c) for c in cases)
     broken = explore(ctx, rep, cases, "main")
     BIG[:] = [not ctx.quick, .05]
@@ -1023,7 +1126,7 @@ def run(ctx):
         # retry), then fresh scenarios, one in four with user-set retry-control labels
         near = [m["case"] for m in rep.mismatches if isinstance(m.get("case"), dict) and "ops" in m["case"]][:15]
         extra = [variant(r2, c) for c in near for _ in range(ctx.n(20, 60))]
-        extra += [gen_case_rc(r2) if i % 4 == 3 else gen_case(r2) for i in range(ctx.n(700, 6000))]
+        extra += [gen_case_rc(r2) if i % 4 == 3 else gen_case_mw(r2) if i % 8 == 5 else gen_case(r2) for i in range(ctx.n(700, 6000))]
         for c in extra:
             normalise(c)
         rep.count("search:neighbours of differing scenarios", len(near) * ctx.n(20, 60))
